@@ -8,7 +8,7 @@ for kind in fast ref; do
   if [ $kind = fast ]; then ex=ExtractFast.v; else ex=Extract.v; fi
   ( cd $kind && coqc -Q ../$COQ/theories Gabi -Q ../$COQ/gen GabiGen ../$COQ/extract/$ex >/dev/null \
     && rm -f ../$COQ/extract/*.vo ../$COQ/extract/*.glob ../$COQ/extract/.*.aux ../$COQ/extract/*.vok ../$COQ/extract/*.vos \
-    && cp ../conv_$kind.ml conv.ml && cp ../driver.ml driver.ml \
-    && ocamlfind ocamlopt -O3 -w -a -package zarith -linkpkg model.mli model.ml conv.ml driver.ml -o model_$kind 2>/dev/null \
-    || ocamlfind ocamlopt -w -a -package zarith -linkpkg model.mli model.ml conv.ml driver.ml -o model_$kind )
+    && cp ../conv_$kind.ml conv.ml && cp ../driver.ml driver.ml && cp ../zhelp.ml zhelp.ml \
+    && ocamlfind ocamlopt -O3 -w -a -package zarith -linkpkg zhelp.ml model.mli model.ml conv.ml driver.ml -o model_$kind 2>/dev/null \
+    || ocamlfind ocamlopt -w -a -package zarith -linkpkg zhelp.ml model.mli model.ml conv.ml driver.ml -o model_$kind )
 done
